@@ -28,8 +28,18 @@ _REWRITE_BUILTINS = {'int': '__vint__', 'float': '__vfloat__', 'round': '__vroun
 
 
 class _Lifter(ast.NodeTransformer):
-    def __init__(self, rebound):
+    def __init__(self, rebound, lift_subscripts=False):
         self.rebound = rebound
+        self.lift_subscripts = lift_subscripts
+
+    def visit_Subscript(self, node):
+        self.generic_visit(node)
+        if not self.lift_subscripts or not isinstance(node.ctx, ast.Load):
+            return node
+        sl = node.slice
+        if isinstance(sl, ast.Slice) or (isinstance(sl, ast.Tuple) and any(isinstance(e, (ast.Slice, ast.Starred)) for e in sl.elts)):
+            return node
+        return ast.copy_location(ast.Call(func=ast.Name(id='__vgetitem__', ctx=ast.Load()), args=[node.value, sl], keywords=[]), node)
 
     def visit_Constant(self, node):
         v = node.value
@@ -128,15 +138,18 @@ def _rebound_names(tree):
 _CODE_CACHE = {}
 
 
+LIFT_SUBSCRIPTS = False
+
+
 def lifted_code(path):
     st = os.stat(path)
-    key = (path, st.st_mtime_ns, st.st_size)
+    key = (path, st.st_mtime_ns, st.st_size, LIFT_SUBSCRIPTS)
     c = _CODE_CACHE.get(key)
     if c is None:
         with open(path, 'rb') as f:
             src = f.read()
         tree = ast.parse(src, filename=path)
-        tree = _Lifter(_rebound_names(tree)).visit(tree)
+        tree = _Lifter(_rebound_names(tree), LIFT_SUBSCRIPTS).visit(tree)
         ast.fix_missing_locations(tree)
         c = compile(tree, path, 'exec')
         _CODE_CACHE[key] = c
@@ -159,7 +172,7 @@ def identity_helpers():
         '__vipow__': operator.ipow,
         '__vint__': int, '__vfloat__': float, '__vround__': round, '__vcomplex__': complex,
         '__visinstance__': isinstance,
-        '__vmath__': math, '__vtruenp__': numpy,
+        '__vmath__': math, '__vtruenp__': numpy, '__vgetitem__': operator.getitem,
     }
 
 
@@ -209,10 +222,11 @@ def purge():
         del sys.modules[k]
 
 
-def install(helpers):
+def install(helpers, lift_subscripts=False):
     """Install the lifted importer with the given helper dict and purge already-imported prysm modules."""
-    global HELPERS
+    global HELPERS, LIFT_SUBSCRIPTS
     HELPERS = dict(helpers)
+    LIFT_SUBSCRIPTS = lift_subscripts
     if _FINDER not in sys.meta_path:
         sys.meta_path.insert(0, _FINDER)
     purge()
